@@ -79,6 +79,50 @@ type Sim struct {
 	OvertakeBudget time.Duration // total simulated time the scheduler may spend letting timers overtake
 	roots          int
 	Log            func(format string, a ...any)
+
+	// preemption plan: visits of simrt.Preempt points are counted; every so often (random gap with the
+	// given mean, drawn from its own generator) the visiting goroutine parks as at a Yield
+	preemptMean int64
+	preemptCtr  atomic.Int64
+	preemptNext atomic.Int64
+	prng        uint64
+	Preempts    int64
+}
+
+// SetPreempt enables preemption between synchronisation operations: on average one in mean visited
+// preemption points becomes a scheduling point. Call before spawning goroutines; 0 disables.
+func (s *Sim) SetPreempt(mean int64, seed uint64) {
+	s.preemptMean = mean
+	s.prng = seed*0x9E3779B97F4A7C15 + 0x1234567
+	if s.prng == 0 {
+		s.prng = 1
+	}
+	s.preemptNext.Store(1 + int64(s.prng>>40)%(mean+1))
+}
+
+// Preempt is a possible preemption point (function entry, loop body) in code that performs no
+// synchronisation: unless the run's preemption plan selects this visit it costs a counter increment.
+func Preempt(site string) {
+	s := cur.Load()
+	if s == nil || s.preemptMean == 0 {
+		return
+	}
+	n := s.preemptCtr.Add(1)
+	if n < s.preemptNext.Load() || s.killed.Load() {
+		return
+	}
+	g := s.self()
+	if g == nil || g.dying {
+		return
+	}
+	s.mu.Lock()
+	s.prng ^= s.prng << 13
+	s.prng ^= s.prng >> 7
+	s.prng ^= s.prng << 17
+	s.preemptNext.Store(n + 1 + int64(s.prng>>11)%(2*s.preemptMean))
+	s.Preempts++
+	s.mu.Unlock()
+	s.park(g, "preempt:"+site, nil)
 }
 
 var cur atomic.Pointer[Sim]
